@@ -122,6 +122,15 @@ def run(ck: Check):
                         "faults": {"apis": [], "plan": {}}, "max_vtime": 900.0, "_cond": "healthy", "_group": False,
                         "_t_stop": 0.0})
             k += 1
+    # unsubscribe() immediately followed by stop() (no await in between) while a fetch is in flight
+    for j, (group, t) in enumerate([(False, 0.3), (False, 1.0), (True, 0.5), (True, 1.2)]):
+        c0 = {"name": "c0", "group": "g" if group else None, "topics": ["t0"], "assignors": ["range"], "auto_commit": True,
+              "auto_commit_interval_ms": 300, "cb_delay": 0, "fetch_max_wait_ms": 400,
+              "program": [["start"], ["consume", t, 0.1, None, 0], ["unsubscribe"], ["stop", 600.0, True]]}
+        scs.append({"id": f"unsubscribe-stop-{j}", "seed": 60 + j, "brokers": 1, "topics": {"t0": 2},
+                    "preload": {"t0": {"0": 3, "1": 0}}, "consumers": [c0], "cluster_events": [], "coordinator": 0,
+                    "faults": {"apis": [], "plan": {}}, "max_vtime": 1500.0, "_cond": "unsubscribe-stop",
+                    "_group": group, "_t_stop": t})
     # a group consumer whose application stopped polling for longer than max_poll_interval_ms: the heartbeat task leaves
     # the group on its behalf (slow LeaveGroup round trip); stop() is called at a grid of instants around that
     for j, idle in enumerate([0.3, 0.5, 0.6, 0.7, 0.8, 0.9, 1.0, 1.1, 1.3, 1.6]):
